@@ -250,7 +250,7 @@ def explore(build, alphabet, depth, max_dev, on_transition, on_state=None, part=
             o = ops_by_label[lab]
             apply(ctx, o)
             hist.append(lab)
-            dev_used += 1 if o.deviation else 0
+            # a seeded root only PLACES the search in a non-initial state: its own labels do not use up the deviation budget
 
         def rec(d, dev):
             key = ctx.canon()
